@@ -955,6 +955,10 @@ fn run(cfg: &Config, s: &mut Session) {
     let mut rng = Rng::new(cfg.seed);
     let t = cfg.thorough();
     // development aid: only the lookup-level / builder groups (never set by ./check)
+    if std::env::var("C16_ONLY").as_deref() == Ok("mbsearch") {
+        lookup::run_mb_shared_search(s);
+        return;
+    }
     if std::env::var("C16_ONLY").as_deref() == Ok("lookup") {
         lookup::run(cfg, s, &mut rng);
         return;
